@@ -13,13 +13,85 @@ MARKSETS = [("!", ">", "*", "|"), ("!", ">", "*", "|"), ("!", ">", "*", "|"), ("
             ("!", ">", "", ""), ("d", "p", "D", "P"), ("!!", ">", "*", "|"), ("<", ">", "", "|")]
 
 
-def gen_docs(rng, uid):
+def gen_docs(rng, uid, long=0.0):
+    """documentation texts with a unique tracer word each; with probability `long` a text is filled with further
+    unique words up to a width of 70..115 columns"""
     n = rng.choice([1, 1, 2, 3])
-    return [" " + f"w{uid}_{i} " + rng.choice(WORDS) for i in range(n)]
+    out = []
+    for i in range(n):
+        d = " " + f"w{uid}_{i} " + rng.choice(WORDS)
+        if rng.random() < long:
+            width, j = rng.randint(70, 115), 0
+            while len(d) < width:
+                d += f" f{uid}_{i}_{j}" + rng.choice(["", "", "x", "-", "."])
+                j += 1
+        out.append(d)
+    return out
 
 
-def gen_case(rng):
+FIXED_COMMENT_COLUMNS = [1, 2, 3, 4, 6, 7, 9]     # blanks before the '!' of an indented comment line (5 = continuation)
+
+
+def to_fixed(rng, lines):
+    """the same documented statements as a fixed-form file: statements from column 7 on, comment lines (documentation
+    included) with their '!' in column 1 or indented by 1-4 or 6+ blanks, blank lines as they are"""
+    out = []
+    for l in lines:
+        s = l.strip()
+        if not s:
+            out.append(l)
+        elif s.startswith("!"):
+            k = 0 if rng.random() < 0.15 else rng.choice(FIXED_COMMENT_COLUMNS)
+            out.append(" " * k + l.lstrip())
+        else:
+            k = rng.choice([6, 6, 8, 9])
+            if k + len(l.strip()) > 72:
+                k = 6
+            assert k + len(l.strip()) <= 72, l
+            out.append(" " * k + l.strip())
+    return out
+
+
+def gen_case_fixed(rng, long=0.6):
+    """-> (marks, fixed-form lines, items, shapes, widest indented documentation line)"""
+    marks, lines, items, shapes = gen_case(rng, fixed=True, long=long)
+    flines = to_fixed(rng, lines)
+    wide = max([len(l) for l in flines if l.startswith(" ") and l.lstrip().startswith("!")], default=0)
+    return marks, flines, items, shapes, wide
+
+
+def forced_fixed_case(rng, style):
+    """one statement documented in the given style ('doc', 'pre', 'alt', 'prealt') with indented documentation lines
+    wider than 72 columns (default markers) -> (marks, fixed-form lines, items)"""
+    def long_doc(tag, i):
+        d, j = f" {tag}_{i} starts", 0
+        width = rng.randint(80, 118)
+        while len(d) < width:
+            d += f" {tag}{i}w{j}"
+            j += 1
+        return d
+    tag = f"z{rng.randrange(1000)}"
+    docs = [long_doc(tag, 0), long_doc(tag, 1)]
+    ind = " " * rng.choice([1, 2, 3, 4, 6, 8])
+    st = rng.choice(["integer :: x", "real(8), intent(in) :: a", "type :: t"])
+    stl = "      " + st
+    if style == "doc":
+        lines, items = [stl, f"{ind}!!{docs[0]}", f"{ind}!!{docs[1]}"], [(st, [], docs)]
+    elif style == "pre":
+        lines, items = [f"{ind}!>{docs[0]}", f"{ind}!>{docs[1]}", stl], [(st, docs, [])]
+    elif style == "alt":
+        lines, items = [stl, f"{ind}!*{docs[0]}", f"{ind}!{docs[1]}", ""], [(st, [], docs)]
+    else:
+        lines, items = [f"{ind}!|{docs[0]}", f"{ind}!{docs[1]}", stl], [(st, docs, [])]
+    lines = ["      module m"] + lines + ["      end module m"]
+    items = [("module m", [], [])] + items + [("end module m", [], [])]
+    return ("!", ">", "*", "|"), lines, items
+
+
+def gen_case(rng, fixed=False, long=0.0):
     """-> (marks, lines, items, shapes); items = [(statement, docs written before it, docs written after it)].
+    fixed: only what can be re-indented into a fixed-form file by to_fixed (no free-form continuation; a statement
+    line with its inline documentation stays within 72 columns); long: see gen_docs.
     A blank line does not end a pre-alt block (shape "blank_in_prealt": a comment line after a blank line inside the
     block is documentation too); it does end an alt block."""
     marks = rng.choice(MARKSETS)
@@ -32,7 +104,7 @@ def gen_case(rng):
     def pre_block(ind):
         nonlocal uid
         uid += 1
-        docs = gen_docs(rng, uid)
+        docs = gen_docs(rng, uid, long)
         mixed = rng.random() < 0.4     # the pre-marker is only required on the first line
         for i, d in enumerate(docs):
             lines.append(f"{ind}!{pre}{d}" if (i == 0 or not mixed) else f"{ind}!{doc}{d}")
@@ -45,7 +117,7 @@ def gen_case(rng):
     def prealt_block(ind):
         nonlocal uid
         uid += 1
-        docs = gen_docs(rng, uid)
+        docs = gen_docs(rng, uid, long)
         for i, d in enumerate(docs):
             lines.append(f"{ind}!{prealt}{d}" if i == 0 else f"{ind}!{d}")
         while rng.random() < 0.25:
@@ -66,7 +138,7 @@ def gen_case(rng):
         st = rng.choice(STMTS)
         ind = " " * rng.choice([0, 2, 4])
         head = []           # the lines before the last one of a statement continued inside a literal
-        if rng.random() < 0.2:
+        if rng.random() < 0.2 and not fixed:
             phys, st_full = rng.choice(ML_STMTS)
             for h in phys[:-1]:
                 head.append(ind + h)
@@ -100,19 +172,21 @@ def gen_case(rng):
         r = rng.random()
         if r < 0.25:
             uid += 1
-            post_lines = gen_docs(rng, uid)
+            post_lines = gen_docs(rng, uid, long)
+            if fixed:
+                post_lines[0] = post_lines[0][:24].rstrip()      # the inline text stays within column 72
             lines.append(f"{ind}{st} !{doc}{post_lines[0]}")
             for d in post_lines[1:]:
                 lines.append(f"{ind}  !{doc}{d}")
         elif r < 0.55:
             uid += 1
-            post_lines = gen_docs(rng, uid)
+            post_lines = gen_docs(rng, uid, long)
             lines.append(ind + st)
             for d in post_lines:
                 lines.append(f"{ind}  !{doc}{d}")
         elif r < 0.75 and alt:
             uid += 1
-            post_lines = gen_docs(rng, uid)
+            post_lines = gen_docs(rng, uid, long)
             lines.append(ind + st)
             for i, d in enumerate(post_lines):
                 lines.append(f"{ind}  !{alt}{d}" if i == 0 else f"{ind}  !{d}")
